@@ -1151,6 +1151,7 @@ func TestC26(t *testing.T) {
 			"an event whose canonical msgpack size is within 64 bytes below 1,000,000 may be dropped or sent (refinery's own encoding is a few bytes longer than the canonical one)",
 			"the 5 MB limit is judged on the uncompressed request body; a compressed wire body is only classified",
 			"a batch's dispatch instant is the arrival of its first attempt; requests to a destination that was answered with a scripted delay/429/503/time-out are excused from the timing bound (sub-batches of one dispatch are sent sequentially)",
+			"when at least 400 requests of a case received a delaying answer (about as many as refinery has senders, 500) a flushed batch may have waited for a free sender: the timing bound is not judged for that case (aimed shape \"saturated sender pool\", 1 case in 50 + a hand-kept replay)",
 			"a second attempt is accepted only after 429/503/time-out (or a hang-up, don't-care); the converse (that a retry happens) is not asserted",
 			"scripted-fault histories enqueue from a single goroutine; 1 case in 8 is the concurrent shape: 2-8 real goroutines, released together by a spin barrier inside the injected Clock.Now() (called by EnqueueEvent right before the batch lookup), enqueue the first events of fresh destinations; only the final accounting after Stop is judged there",
 		},
